@@ -65,9 +65,13 @@ fn real_main(args: &[String], props: &[&dyn Prop]) -> i32 {
             let mut ops: std::collections::BTreeMap<&'static str, u64> = Default::default();
             for i in 0..n {
                 let mut r = rng::Rng::new(rng::run_seed(7, "gentest", i));
-                let cfg = gen::prog::GenCfg::swarm(&mut r);
-                let p = gen::prog::generate(&mut r, cfg);
-                let spec = world::vm::ProgSpec::from_json(&p.to_json());
+                let spec = if i % 5 == 4 {
+                    world::vm::ProgSpec::from_json(&gen::pop::stdlib_scenario(&mut r)["prog"])
+                } else {
+                    let cfg = gen::prog::GenCfg::swarm(&mut r);
+                    let p = gen::prog::generate(&mut r, cfg);
+                    world::vm::ProgSpec::from_json(&p.to_json())
+                };
                 let key = match spec.assemble(false) {
                     Err(e) => {
                         if verbose {
